@@ -106,7 +106,11 @@ class Cfg:
         return sum(1 for c in self.currents if c > 0)
 
     def laststep(self):
-        # uint32_t laststep = std::ceil(steps*rotations) with steps double, rotations float
+        # uint32_t laststep = std::ceil(steps*rotations*(1.0-1e-12)), all doubles (IEEE products, as Python's)
+        return int(math.ceil(float(self.steps) * float(self.rot) * (1.0 - 1e-12)))
+
+    def laststep_pinned(self):
+        # before the repair: rotations narrowed to float, no guard factor
         return int(math.ceil(float(self.steps) * f32(float(self.rot))))
 
     def args(self, out, workdir=None):
